@@ -175,3 +175,11 @@ pub proof fn lemma_oa_empty(vals: int, vs: Seq<NodePtr>)
         opatoms(Seq::<Operation>::empty(), vals, vs),
 {
 }
+
+/// C07: the ways a softfork argument list can be rejected.  `canon` is whether the extension
+/// number must be canonically encoded; the property demands that rejection does not depend on it
+/// once the call succeeds without the restriction (known finding F3: it does).
+pub open spec fn sf_args_bad(args: Tree, canon: bool, ext_map: spec_fn(u32) -> OperatorSet) -> bool {
+    let items = list_items(args);
+    items.len() != 4 || !(items[1] is Atom) || !uint_ok(items[1].bytes(), canon, 4) || ext_map(be_val(items[1].bytes()) as u32) == OperatorSet::Default
+}
